@@ -207,6 +207,17 @@ class Rx:
         return [(m.start(), len(m.group(1))) for m in self.re.finditer(b)]
 
 
+class HexJump(Rx):
+    """hex string with a small jump, e.g. { 41 42 [0-4] 43 44 }: verified by yr_re_fast_exec, which keeps its candidate positions in
+    nodes recycled through the scanner's position pool; the shortest match at every start offset is reported"""
+
+    def __init__(self, head, lo, hi, tail):
+        import re
+        self.hexsrc = "{ %s [%d-%d] %s }" % (" ".join("%02x" % x for x in head), lo, hi, " ".join("%02x" % x for x in tail))
+        self.src = None
+        self.re = re.compile(b"(?=(" + re.escape(head) + (b"[\\s\\S]{%d,%d}?" % (lo, hi)) + re.escape(tail) + b"))", re.S)
+
+
 class Bomb:
     """/(c{1,40}){1,40}d/ : on a long run of 'c' the regexp engine needs more than RE_MAX_FIBERS fibers and the scan fails
     with ERROR_TOO_MANY_RE_FIBERS. Matches are computed analytically (c^k d, 1 <= k <= 1600, at every start inside the run)."""
@@ -258,6 +269,8 @@ def str_findall(s, b):
 def str_src(s):
     if isinstance(s, Chain):
         return s.src()
+    if isinstance(s, HexJump):
+        return s.hexsrc
     if isinstance(s, (bytes, bytearray)):
         return "{ %s }" % " ".join("%02x" % x for x in s)
     return "/%s/" % s.src
